@@ -2395,3 +2395,76 @@ REGISTRY["C01"].parts[0].directed = c01_directed
 REGISTRY["C05"].parts[0].directed = c05_directed
 _c07_old = REGISTRY["C07"].parts[0].directed
 REGISTRY["C07"].parts[0].directed = lambda ctx: _c07_old(ctx) + c07_held_update(ctx)
+
+
+
+# ---------------------------------------------------------------------------
+# Free-running RIB hammer under the race detector (C11, C12): several goroutines call AddEntry / DeleteEntry on one RIB at once,
+# well-formed and malformed operations over a small shared key space. The race detector and the runtime observe; the
+# specification contributes the quiescent accounting (GribiRIBCS.Accounted, which TLC shows to hold at the code's grain).
+
+class RibHammerFamily:
+    FAMILY = "ribhammer"
+
+    def __init__(self, prop):
+        self.prop = prop
+
+    def run(self, ctx):
+        res = Result()
+        quick = ctx.tier == "quick"
+        cfg = ribcs_cfg(RibCSFamily.SMALL + (11, 14), Serial=False).replace("INVARIANTS QuiescentConsistent", "INVARIANTS Accounted")
+        mc = require_ok(ctx.tlc("GribiRIBCS_MC", None, name="mc-ribcs-accounted", workers=vlib.NCPU, cfg_text=cfg, timeout=3000, heap="16g"),
+                        "model checking GribiRIBCS_MC (Accounted at the code's grain)")
+        trace = os.path.join(ctx.work, "hammer.ndjson")
+        rounds = 10 if quick else 200
+        p = ctx.run_vh(["ribhammer-run", "-out", trace, "-rounds", str(rounds), "-seed", str(ctx.seed)], race=True, timeout=3000)
+        races = p.stderr.count("WARNING: DATA RACE")
+        if p.returncode not in (0, 66):
+            crash = vlib.gribigo_panic(p.stderr)
+            if crash:
+                rp = os.path.join(vlib.ROOT, "replays", f"{self.prop}-ribhammer-crash-{vlib.sha(crash[:3000])}.txt")
+                open(rp, "w").write(crash)
+                res.violations.append({"replay": rp, "what": "the process in which several goroutines called AddEntry / DeleteEntry on one RIB (malformed operations included) died inside openconfig/gribigo: "
+                                                             + crash.splitlines()[0][:200]})
+                res.coverage = {"states": mc.distinct, "transitions": mc.generated, "traces_validated_against_impl": 0, "evaluations": 0, "distinct_nontrivial": 0, "samples": [["crashed"]], "rule": "crashed"}
+                return res
+            raise Infra(f"vh ribhammer-run failed rc={p.returncode}: " + p.stdout[-1500:] + p.stderr[-3000:])
+        info = json.loads(p.stdout.strip().splitlines()[-1])
+        # C12: a race on a Go map is a crash waiting to happen (the runtime aborts the whole process when it notices one)
+        map_races = sum(1 for blk in p.stderr.split("WARNING: DATA RACE")[1:] if "runtime.map" in blk.split("==================")[0])
+        if races and (self.prop == "C11" or map_races):
+            rp = os.path.join(vlib.ROOT, "replays", f"{self.prop}-ribhammer-race-{vlib.sha(p.stderr[:4000])}.txt")
+            open(rp, "w").write(p.stderr[:200000])
+            res.violations.append({"replay": rp, "what": f"the race detector reported {races} data race(s) ({map_races} on a Go map, which the runtime turns into a fatal error) while several "
+                                                         f"goroutines called AddEntry / DeleteEntry (malformed operations included) on one RIB"})
+        cfg = ('SPECIFICATION CTSpec\nCONSTANTS\n  NIs = {"DEFAULT", "vrf1"}\n  Serial = FALSE\n  TraceFile = "trace.ndjson"\n'
+               'POSTCONDITION TraceAccepted\nCHECK_DEADLOCK FALSE\n')
+        run = ctx.tlc("GribiRIBCSTrace", None, name="validate-hammer", workers=1, cfg_text=cfg, extra_files={trace: "trace.ndjson"}, timeout=3000, heap="12g")
+        matched, total, mism = parse_trace_report(run)
+        if matched != total:
+            raise Infra(f"trace validation stopped at line {matched + 1} of {total}\n" + run.tail())
+        lines = [json.loads(x) for x in open(trace)]
+        ncalls = sum(len(e.get("calls", [])) for e in lines)
+        for (ln, ev, comps) in mism:
+            if "ribcsSlow" in comps:
+                raise Infra(f"hammer round {ln} inconclusive (slow machine)")
+            e = lines[ln - 1]
+            rp = os.path.join(vlib.ROOT, "replays", f"{self.prop}-ribhammer-{vlib.sha(json.dumps(e, sort_keys=True)[:5000])}.json")
+            json.dump({"property": self.prop, "family": self.FAMILY, "seed": ctx.seed, "components": comps, "round": e}, open(rp, "w"))
+            res.violations.append({"replay": rp, "what": f"free-running concurrent RIB calls, round {e.get('n')}: {comps} {e.get('hung')}"})
+        res.coverage = {"states": mc.distinct, "transitions": mc.generated, "exhaustive": False, "traces_validated_against_impl": total, "evaluations": ncalls,
+                        "distinct_nontrivial": total,
+                        "rule": ("one case = one round in which 4 goroutines issue 120 AddEntry / DeleteEntry calls each on one fresh rib.RIB at the same time (shared keys, forward "
+                                 "references, one operation in six malformed), in a binary built with the race detector; the verdicts are a race report, a crash inside gribigo, "
+                                 "a goroutine left blocked, or an operation that is neither acknowledged, failed nor held at quiescence (GribiRIBCS.Accounted)"),
+                        "samples": [[{"round": 1, "calls": len(lines[0].get("calls", [])) if lines else 0}]], "driver": info,
+                        "model_checking": [{"module": "GribiRIBCS_MC", "constants": {"Serial": False}, "invariant": "Accounted holds", "distinct_states": mc.distinct, "generated": mc.generated}]}
+        res.assumptions = ["the interleavings are whatever the runtime produced in this run; the state reached is not compared with a model (overlapping calls are not atomic: open findings), only the accounting is"]
+        return res
+
+    def replay(self, ctx, path):
+        raise Infra("re-run the check with the recorded seed")
+
+
+REGISTRY["C11"] = CompositeFamily("C11", REGISTRY["C11"].parts + [RibHammerFamily("C11")])
+REGISTRY["C12"] = CompositeFamily("C12", REGISTRY["C12"].parts + [RibHammerFamily("C12")])
